@@ -7,12 +7,23 @@ CONV = ("Into::into", "From::from")
 
 
 def TryOk(p=ANY):
-    """payload of `expr?` on the success edge"""
-    return Field(Call("Try::branch", p, nargs=1), 0, "Continue")
+    """payload of `expr?` on the success edge - or of the equivalent `match expr { Ok(v) => v, .. }` / `Some(v)`"""
+    from .pat import Or
+    return Or(Field(Call("Try::branch", p, nargs=1), 0, "Continue"), Field(p, 0, "Ok"), Field(p, 0, "Some"))
 
 
 def TryErr(p=ANY):
-    return Field(Call("Try::branch", p, nargs=1), 0, "Break")
+    from .pat import Or
+    return Or(Field(Call("Try::branch", p, nargs=1), 0, "Break"), Field(p, 0, "Err"))
+
+
+def propagates_error_of(ret, x):
+    """ret returns the error of Result-valued expression x: `x?`'s residual, or Err(.. x's Err payload ..)"""
+    if callee_is(ret, "FromResidual::from_residual"):
+        return match(ret[3][0], TryErr(lambda e: e == x))
+    if ret[0] == "agg" and path_ends(ret[2], "Result::Err"):
+        return any(y == ("field", x, 0, "Err") for y in subexprs(ret))
+    return False
 
 
 def is_err_return(p):
